@@ -204,7 +204,7 @@ PROPS.update({
         "explanation": "Matching: Theorems c08_string_run_total / c08_matrix_run_total / c08_portgraph_run_total (+ c08_portgraph_run_no_panic) - on every automaton passing wf_check and arity_ok "
                        "(matrices: and keys_nn; all evaluated on every dump) the modelled traversal never reaches a panic site and terminates (explicit fuel bound from a weight that "
                        "decreases along the acyclic automaton; port graphs: the candidates of one bind_all are bounded because a root key offers at most one node per (known root, port)), "
-                       "for every host. Baselines: c08_{string,matrix}_single_total, c08_{string,matrix}_naive_total - the modelled get_all_bindings / NaiveManyMatcher terminate "
+                       "for every host. Baselines: c08_{string,matrix,portgraph}_single_total, c08_{string,matrix,portgraph}_naive_total - the modelled get_all_bindings / NaiveManyMatcher terminate "
                        "without panic on the constraints of every pattern (uses c12_*_terminates for the missing_bindings calls). Component totality theorems (c08_*_partial) for the "
                        "toposort and retain_keys. Construction (the builder): panic/timeout exploration of every generated and degenerate case; Ok/Panic status of the "
                        "modelled traversal compared with the implementation on every dumped automaton.",
